@@ -495,6 +495,25 @@ func (t *fullTarget) Loadable(id uint64) bool {
 	return ok && err == nil
 }
 
+// Healthy reports whether the server is still the same running leader with the harness storage and
+// every API call so far succeeded (under CPU starvation a member can lose its leader lease; the raft
+// cluster is then stopped and later rebuilt from storage — nothing observed across that is a verdict).
+func (t *fullTarget) Healthy() error {
+	if errs := t.Errs(); len(errs) > 0 {
+		return fmt.Errorf("API error: %s", errs[0])
+	}
+	if !t.m.Srv.GetMember().IsLeader() {
+		return fmt.Errorf("server lost leadership")
+	}
+	if !t.rc.IsRunning() || t.m.Srv.GetRaftCluster() != t.rc {
+		return fmt.Errorf("raft cluster not running")
+	}
+	if t.rc.GetStorage() != t.st {
+		return fmt.Errorf("raft cluster was restarted (storage replaced)")
+	}
+	return nil
+}
+
 func (t *fullTarget) HasTerm() bool { return false }
 func (t *fullTarget) Close()        {}
 
